@@ -1,0 +1,70 @@
+//! Verification hooks (cargo feature `verif-hooks`, off by default): a drop-in for
+//! `std::sync::Mutex` that reports lock acquisition and release to a process-global callback,
+//! so that a test harness can enumerate interleavings of the code that uses it.
+#![doc(hidden)]
+
+use std::ops::{Deref, DerefMut};
+use std::sync::{Arc, LockResult, PoisonError, RwLock};
+
+/// What the instrumented mutex reports, always from the thread performing the operation.
+#[derive(Clone, Copy, Debug, PartialEq, Eq)]
+pub enum Event {
+    BeforeLock,
+    AfterLock,
+    AfterUnlock,
+}
+
+type Callback = Arc<dyn Fn(Event) + Send + Sync>;
+static CALLBACK: RwLock<Option<Callback>> = RwLock::new(None);
+
+/// Installs (or removes) the process-global callback.
+pub fn set_callback(cb: Option<Callback>) {
+    *CALLBACK.write().unwrap() = cb;
+}
+
+fn report(e: Event) {
+    let cb = CALLBACK.read().unwrap().clone();
+    if let Some(cb) = cb {
+        cb(e);
+    }
+}
+
+pub struct Mutex<T>(std::sync::Mutex<T>);
+
+pub struct MutexGuard<'a, T>(Option<std::sync::MutexGuard<'a, T>>);
+
+impl<T> Mutex<T> {
+    pub fn new(t: T) -> Self {
+        Mutex(std::sync::Mutex::new(t))
+    }
+
+    pub fn lock(&self) -> LockResult<MutexGuard<'_, T>> {
+        report(Event::BeforeLock);
+        let r = match self.0.lock() {
+            Ok(g) => Ok(MutexGuard(Some(g))),
+            Err(p) => Err(PoisonError::new(MutexGuard(Some(p.into_inner())))),
+        };
+        report(Event::AfterLock);
+        r
+    }
+}
+
+impl<T> Deref for MutexGuard<'_, T> {
+    type Target = T;
+    fn deref(&self) -> &T {
+        self.0.as_ref().expect("guard is live")
+    }
+}
+
+impl<T> DerefMut for MutexGuard<'_, T> {
+    fn deref_mut(&mut self) -> &mut T {
+        self.0.as_mut().expect("guard is live")
+    }
+}
+
+impl<T> Drop for MutexGuard<'_, T> {
+    fn drop(&mut self) {
+        drop(self.0.take());
+        report(Event::AfterUnlock);
+    }
+}
